@@ -92,6 +92,33 @@ def scalingOps : List String → Option String
     let after ← after.toInt?
     let tx ← (if tx = "-" then some [] else (tx.splitOn ",").mapM String.toInt?)
     pure (if C06.spec raw ⟨val, mi, ma⟩ ⟨raised, after, tx⟩ then "pass" else "fail")
+  -- a history on one parameter, starting with a report: `R:<value>:<min>:<max>` controller report,
+  -- `S:<retries>:<pyval>` set call (decision + first attempt), `T` the sleep of the call in flight is over.
+  -- answer: per event (separated by `/`) its outputs `d:<outcome>` `tx:<raw>` `ret:<0|1>` (`-` if none),
+  -- then ` | value min max pending inflight`
+  | "c06hist" :: cls :: mn :: md :: off :: pr :: evs => do
+    let c ← parseConv cls mn md off pr
+    let parseEv (s : String) : Option MEvent :=
+      match s.splitOn ":" with
+      | ["R", v, mi, ma] => do pure (.report ⟨← v.toInt?, ← mi.toInt?, ← ma.toInt?⟩)
+      | ["T"] => some .tick
+      | "S" :: n :: rest => do
+        let v ← parseVal (String.intercalate ":" rest)
+        pure (.set v (← n.toNat?))
+      | _ => none
+    let evs ← evs.mapM parseEv
+    match evs with
+    | .report t0 :: rest =>
+      let showOut : MOut → String
+        | .decided o => "d:" ++ showOutcome o
+        | .tx r _ _ _ _ => s!"tx:{r}"
+        | .returned b => if b then "ret:1" else "ret:0"
+      let (s, outs) := rest.foldl (fun (acc : MState × List String) ev =>
+        let (s1, o) := stepM c acc.1 ev
+        (s1, acc.2 ++ [if o.isEmpty then "-" else String.intercalate "," (o.map showOut)])) (⟨t0, false, 0, none⟩, [])
+      pure (String.intercalate "/" outs ++
+        s!" | {s.held.value} {s.held.min} {s.held.max} {if s.pending then 1 else 0} {if s.call.isSome then 1 else 0}")
+    | _ => none
   | _ => none
 
 end PlumVerif
